@@ -74,8 +74,9 @@ Definition pre_r (v : sval) (a : AR) : pre (env W) :=
     let inferred : res (list Z) :=
       if existsb (Z.eqb (-1)) shape then
         let p := zprod (filter (fun d => negb (d =? -1)) shape) in
-        if p =? 0 then (if size =? 0 then Raise ValueError else Raise OverflowError)   (* int(nan) / int(inf) *)
-        else let extra := Z.quot size p in Ok (map (fun d => if d =? -1 then extra else d) shape)
+        (* known = product of the given extents; ValueError if known == 0 or size % known != 0 *)
+        if (p =? 0) || negb (size mod p =? 0) then Raise ValueError
+        else let extra := size / p in Ok (map (fun d => if d =? -1 then extra else d) shape)
       else Ok shape in
     match inferred with
     | Raise e => PRaise e
